@@ -183,18 +183,32 @@ fn minimise(mut best: Trace, prop: &str, key: &str, scratch: &Path) -> (Trace, u
             false
         }
     };
-    // 1. runs of a session prefix
-    if best.runs.len() > 1 {
+    // 0. a failure of the fresh-process reference: compare every conversion, not a sample
+    if key.starts_with("I3:ref-process") {
         let mut c = best.clone();
-        c.runs = vec![best.runs.last().cloned().expect("run")];
-        if !try_accept(c, &mut best, &mut execs) {
-            let mut i = 0;
-            while i + 1 < best.runs.len() {
-                let mut c = best.clone();
-                c.runs.remove(i);
-                if !try_accept(c, &mut best, &mut execs) {
-                    i += 1;
-                }
+        for r in &mut c.runs {
+            r.knobs.iso = 99;
+        }
+        let _ = try_accept(c, &mut best, &mut execs);
+    }
+    // 1. runs of a session prefix: first the shortest suffix that still fails, then single runs
+    if best.runs.len() > 1 {
+        let n = best.runs.len();
+        let mut k = 1;
+        while k < n {
+            let mut c = best.clone();
+            c.runs = best.runs[n - k..].to_vec();
+            if try_accept(c, &mut best, &mut execs) {
+                break;
+            }
+            k *= 2;
+        }
+        let mut i = 0;
+        while i + 1 < best.runs.len() && best.runs.len() <= 64 {
+            let mut c = best.clone();
+            c.runs.remove(i);
+            if !try_accept(c, &mut best, &mut execs) {
+                i += 1;
             }
         }
     }
@@ -252,7 +266,12 @@ fn minimise(mut best: Trace, prop: &str, key: &str, scratch: &Path) -> (Trace, u
                         r.knobs.preempt = 0;
                     }
                     1 => r.knobs.heap = 0,
-                    2 => r.knobs.iso = 0,
+                    2 => {
+                        if key.starts_with("I3:ref-process") {
+                            continue;
+                        }
+                        r.knobs.iso = 0;
+                    }
                     _ => r.sched.clear(),
                 }
                 if try_accept(c, &mut best, &mut execs) {
